@@ -37,6 +37,12 @@ fn main() {
             println!("iso: {:?}", iso(&a, &b, IsoMode::RoundTrip).map(|m| m.renumbered()));
             println!("out: {}", hex(&out));
         }
+        "reachvalid" => {
+            let ms = wgen::families::reach_family(wgen::Tier::Quick);
+            let mut bad = 0;
+            for m in &ms { if let Err(e) = validate214(&m.wasm, FeatureSet::DEFAULT) { bad += 1; if bad < 8 { println!("{} : {}", m.coords, e); } } }
+            println!("{} members, {} invalid", ms.len(), bad);
+        }
         "bodies" => {
             let l: usize = av[2].parse().unwrap();
             let alpha = wgen::body::alphabet();
